@@ -660,7 +660,7 @@ def run_driver_sharded(ctx, exe, lines, out_path, what="driver", nshards=None, t
     jobs = []
     for i, part in enumerate(parts):
         s = ctx.path("shards", "%s-%d.txt" % (what.replace("/", "_"), i))
-        o = ctx.path("shards", "%s-%d.ndjson" % (what.replace("/", "_"), i))
+        o = "/dev/null" if out_path == "/dev/null" else ctx.path("shards", "%s-%d.ndjson" % (what.replace("/", "_"), i))
         open(s, "w").write((header + "\n" if header else "") + "\n".join(part) + "\n")
         jobs.append((s, o))
     results = []
@@ -671,7 +671,7 @@ def run_driver_sharded(ctx, exe, lines, out_path, what="driver", nshards=None, t
     ok = True
     with open(out_path, "w") as out:
         for (s, o), (rc, so, se) in zip(jobs, results):
-            if os.path.exists(o):
+            if o != "/dev/null" and os.path.exists(o):
                 out.write(read_text(o))
             if rc != 0:
                 ok = False
